@@ -55,6 +55,12 @@ func runC05(c *fw.Ctx) {
 		c05SeqMergeExhaustive(c, expr.AVG("v"))
 	case c.Case == 3:
 		c05TruncateExhaustive(c, expr.ADD(expr.SUM("v"), expr.COUNT("v")))
+	case c.Case%3 == 2:
+		n := c.Pick(1500, 6000)
+		for i := 0; i < n && !c.Violated(); i++ {
+			c05ShiftCase(c)
+		}
+		c.Sample(map[string]interface{}{"kind": "c': SubMerge of SHIFTed / composite expressions from several table fields vs bucket model", "iterations": n})
 	case c.Case%2 == 0:
 		n := c.Pick(1500, 6000)
 		for i := 0; i < n && !c.Violated(); i++ {
@@ -671,6 +677,131 @@ func c05SubMergeCase(c *fw.Ctx) {
 	if len(out) > 0 {
 		if out.Until().After(until) {
 			c.Violate("seq-submerge-window", "SubMerge result until %v is after window until %v", out.Until(), until)
+		}
+	}
+}
+
+// ------------------------------------------------------------------------------------------
+// (c') SubMerge of shifted and composite expressions fed by several table fields, the way the
+// group stage does it (bytetree.doUpdate): out = out.SubMerge(in_i, ..., outEx, inEx_i, subMergers[i], ...)
+
+func c05ShiftCase(c *fw.Ctx) {
+	r := c.Rand
+	inEx := []expr.Expr{expr.SUM("a"), expr.SUM("b")}
+	k1 := 1 + r.Intn(3)
+	k2 := 1 + r.Intn(3)
+	type leaf struct {
+		field int
+		back  int // shift back in fine periods
+		sign  float64
+	}
+	var out expr.Expr
+	var leaves []leaf
+	sh := func(e interface{}, k int) expr.Expr { return expr.SHIFT(e, -time.Duration(k)*c05Res) }
+	switch r.Intn(5) {
+	case 0:
+		out = sh(inEx[0], k1)
+		leaves = []leaf{{0, k1, 1}}
+	case 1:
+		out = sh(expr.ADD(inEx[0], inEx[1]), k1)
+		leaves = []leaf{{0, k1, 1}, {1, k1, 1}}
+	case 2:
+		out = expr.ADD(inEx[0], sh(inEx[1], k1))
+		leaves = []leaf{{0, 0, 1}, {1, k1, 1}}
+	case 3:
+		out = expr.SUB(sh(inEx[0], k1), sh(inEx[1], k2))
+		leaves = []leaf{{0, k1, 1}, {1, k2, -1}}
+	default:
+		out = expr.ADD(inEx[0], inEx[1])
+		leaves = []leaf{{0, 0, 1}, {1, 0, 1}}
+	}
+	if out.Validate() != nil {
+		return
+	}
+	scale := 1 + r.Intn(3)
+	P := time.Duration(scale) * c05Res
+	const span = 16
+	untilI := 6 + r.Intn(span-4)
+	asOfI := r.Intn(untilI - 1)
+	until := c05End(untilI)
+	asOf := c05End(asOfI)
+	vals := make([]map[int]float64, 2)
+	seqs := make([]encoding.Sequence, 2)
+	for f := 0; f < 2; f++ {
+		start := 1 + r.Intn(span)
+		l := 1 + r.Intn(start)
+		seq := encoding.NewSequence(inEx[f].EncodedWidth(), l)
+		seq.SetUntil(c05End(start))
+		vals[f] = map[int]float64{}
+		for j := 0; j < l; j++ {
+			if r.Intn(4) != 0 {
+				v := float64(1+r.Intn(64)) / 4
+				vals[f][start-j] = v
+				seq.UpdateValueAt(j, inEx[f], expr.Map{[]string{"a", "b"}[f]: v}, nil)
+			}
+		}
+		seqs[f] = seq
+	}
+	sms := out.SubMergers(inEx)
+	var res encoding.Sequence
+	for f := 0; f < 2; f++ {
+		if sms[f] == nil {
+			continue
+		}
+		snap := append([]byte(nil), seqs[f]...)
+		res = res.SubMerge(seqs[f], nil, P, c05Res, out, inEx[f], sms[f], asOf, until, 0)
+		c.Obs("c_shift_submerges", 1)
+		if !bytes.Equal(snap, seqs[f]) {
+			c.Violate("seq-submerge-modifies-operand", "Sequence.SubMerge (shifted) modified its input")
+			return
+		}
+	}
+	// model
+	type acc struct {
+		v   float64
+		set bool
+	}
+	model := map[int]*acc{}
+	contributions := 0
+	for _, lf := range leaves {
+		for e, v := range vals[lf.field] {
+			pos := e + lf.back // the fine period at which the value becomes visible
+			if pos <= asOfI || pos > untilI {
+				continue
+			}
+			j := (untilI - pos) / scale
+			a := model[j]
+			if a == nil {
+				a = &acc{}
+				model[j] = a
+			}
+			a.v += lf.sign * v
+			a.set = true
+			contributions++
+		}
+	}
+	if contributions >= 2 {
+		c.Nontrivial(true)
+		c.Obs("c_shift_nontrivial", 1)
+	}
+	c.HashAdd(out.String(), scale, asOfI, untilI, contributions)
+	maxJ := (untilI-asOfI)/scale + 2
+	for j := 0; j <= maxJ; j++ {
+		T := until.Add(-time.Duration(j) * P)
+		var gv float64
+		var gs bool
+		if len(res) > 0 {
+			gv, gs = res.ValueAtTime(T, out, P)
+		}
+		var wv float64
+		var ws bool
+		if a := model[j]; a != nil {
+			wv, ws = a.v, a.set
+		}
+		if gs != ws || !c05FloatEq(gv, wv) {
+			c.ViolateData("seq-submerge-shift-vs-model", map[string]interface{}{"out": out.String(), "scale": scale, "asOfIndex": asOfI, "untilIndex": untilI, "a": fmt.Sprint(vals[0]), "b": fmt.Sprint(vals[1])},
+				"SubMerge of %v from table fields [SUM(a), SUM(b)] scale=%d window=(%d,%d]: bucket ending at index %d is (%v,%v), model says (%v,%v); a=%v b=%v", out, scale, asOfI, untilI, untilI-j*scale, gv, gs, wv, ws, vals[0], vals[1])
+			return
 		}
 	}
 }
